@@ -253,15 +253,10 @@ func (c truthyCtx) truthyBody(st []ast.Stmt) (string, bool) {
 		case nil:
 			elseE, ok = c.truthyBody(st[1:])
 		case *ast.BlockStmt:
-			if len(st) != 1 {
-				return "", false
-			}
-			elseE, ok = c.truthyBody(e.List)
+			// the then-branch returns on every path, so what follows the if statement continues the else-branch only
+			elseE, ok = c.truthyBody(append(append([]ast.Stmt{}, e.List...), st[1:]...))
 		case *ast.IfStmt:
-			if len(st) != 1 {
-				return "", false
-			}
-			elseE, ok = c.truthyBody([]ast.Stmt{e})
+			elseE, ok = c.truthyBody(append([]ast.Stmt{e}, st[1:]...))
 		default:
 			return "", false
 		}
